@@ -545,6 +545,37 @@ def r12k(ctx, rep, cr):
             c09.expiry_janitor(rep, 'R12k', cr, f, 'LockManager.locks', 'LockManager.tx_locks')
 
 
+def r12l(ctx, rep, cr):
+    rep.rule('R12l', 'the victim of a reported cycle is chosen from that cycle: in DeadlockDetector::detect no iteration of the loop over the '
+                     'detected cycles builds a DeadlockInfo without having called select_victim in that iteration (select_victim returns '
+                     'only members of the cycle it is given, R12c). A victim carried over from an earlier cycle of the same pass need not '
+                     'be in this one')
+    for h in A.with_closures(cr.fns, 'tensor_chain::deadlock::DeadlockDetector::detect'):
+        sv = A.calls_to(h, ('re', r'DeadlockDetector::select_victim$'))
+        builds = [i for i, b in enumerate(h.bbs) if not b['cleanup'] and any(st[1][0] == 'agg' and st[1][1].endswith('deadlock::DeadlockInfo') for st in b['s'])]
+        if not sv or not builds:
+            continue
+        rep.analysed(h)
+        dom = A.dominators(h)
+        uses = A.Uses(h)
+        heads = [x for x in A.calls(h) if (re.search(r'Iterator>?::next$', x.generic) or re.search(r'Iterator>?::next$', x.resolved)) and
+                 any(x.bb in dom[b] for b in builds)]
+        if not heads:
+            rep.holds('R12l', h, 'victim', 'not in a loop')
+            return
+        hd = max(heads, key=lambda x: len(dom[x.bb]))
+        some = [t for (_, t) in A.call_outcome(h, hd, uses).ok] or ([hd.target] if hd.target is not None and hd.target >= 0 else [])
+        R = A.reachable(h, some, cut_blocks={c.bb for c in sv} | {hd.bb})
+        if any(b in R for b in builds):
+            rep.violation('R12l', h, 'victim-not-chosen-from-this-cycle', h.loc(sv[0].line),
+                          'a DeadlockInfo can be built for a cycle without select_victim having been called for it: the reported victim may '
+                          'not belong to the cycle')
+        else:
+            rep.holds('R12l', h, 'victim', 'select_victim is called for every reported cycle')
+        return
+    rep.violation('R12l', 'anchor-missing', 'DeadlockDetector::detect', '-', 'anchor-missing: detect no longer calls select_victim and builds DeadlockInfo in one body')
+
+
 def run(ctx, rep):
     cr = ctx.crate('tensor_chain')
     r12a(ctx, rep, cr)
@@ -558,5 +589,6 @@ def run(ctx, rep):
     r12i(ctx, rep, cr)
     r12j(ctx, rep, cr)
     r12k(ctx, rep, cr)
+    r12l(ctx, rep, cr)
     if ctx.tier == 'thorough':
         witness.run(rep, 'R12a', ['LockTablesArePrivate'])
